@@ -69,6 +69,10 @@ class CheckListHistory(BoundedCheck):
                 for offset in (0, -1, 1):
                     for build in ('parser', 'hand'):
                         yield {'script': script, 'edit': edit, 'offset': offset, 'build': build}
+            # one caller-owned array passed as the initial value of every variable: the model must own its series
+            for offset in (0, -1):
+                for init in ('shared-array', 'shared-int-array', 'shared-2d-row'):
+                    yield {'script': script, 'edit': 'none', 'offset': offset, 'build': 'parser', 'init': init}
 
     def check(self, case, res):
         import warnings
@@ -82,7 +86,15 @@ class CheckListHistory(BoundedCheck):
                 CHECK = list(Model.CHECK)
             Model = Hand
         n = 7
-        m = Model(list(range(n)), alpha=0.5)
+        init = case.get('init')
+        if init:
+            import numpy as np
+            base = {'shared-array': np.arange(n, dtype=float) + 1.0, 'shared-int-array': np.arange(n) + 1,
+                    'shared-2d-row': (np.arange(2 * n, dtype=float) + 1.0).reshape(2, n)[0]}[init]
+            keep = base.copy()
+            m = Model(list(range(n)), **{x: base for x in Model.NAMES})
+        else:
+            m = Model(list(range(n)), alpha=0.5)
         non_endog = [x for x in m.names if x not in Model.ENDOGENOUS]
         for i, x in enumerate(non_endog):
             m[x] = [10.0 * (i + 1) + p for p in range(n)]
@@ -117,6 +129,9 @@ class CheckListHistory(BoundedCheck):
                         out.append(Violation('solving period t never changes exogenous variables, parameters or errors anywhere, nor any other period',
                                              'c04.history-frame', dict(case, t=t), f'{x}[{p}]={b}', f'{x}[{p}]={a}', 'frame'))
                         return out
+        if init and not (base == keep).all():
+            out.append(Violation("the model owns its series: an array passed as an initial value is not written through", 'c04.history-caller-array',
+                                 case, keep.tolist(), base.tolist()))
         if list(m.endogenous) != endog_before or list(Model.ENDOGENOUS) != [s_ for s_ in Model.ENDOGENOUS]:
             out.append(Violation('the list of endogenous variables is not changed by editing the check list or by solving', 'c04.history-endogenous',
                                  case, endog_before, list(m.endogenous)))
